@@ -108,7 +108,7 @@ def gen_keys(rng, tier):
         yield {"part": "keys", "reqs": [[0, p, i, suffix_for(rng, p)] for p in sorted(KIND)]}
     # the prefix bytes without constructor: the model and the driver both build nothing
     yield {"part": "keys", "reqs": [[0, p, id_num(1), [0]] for p in range(256) if p not in KIND]}
-    for _ in range(150 if tier == "quick" else 3000):
+    for _ in range(100 if tier == "quick" else 3000):
         reqs = []
         for _ in range(40):
             code = rng.choice([0, 0, 1, 2, 2, 3, 4])
@@ -141,7 +141,7 @@ ITER_SPACES = [32, 36, 37, 56, 31, 39, 22, 23, 41]
 
 
 def gen_store(rng, tier):
-    for _ in range(400 if tier == "quick" else 8000):
+    for _ in range(300 if tier == "quick" else 8000):
         ids = rng.choice(ID_FAMILIES)
         spaces = rng.sample(ITER_SPACES, rng.randint(1, 3)) + rng.sample(LEGACY + LEN + [55], rng.randint(0, 2))
         times = [[2, T2030 + s, ns] for s, ns in [(0, 0), (0, 1), (1, 0), (0, 999999999), (86400, 0)]]
@@ -240,7 +240,7 @@ OPS_BY_PHASE = {0: [1, 1, 2, 3, 4, 5, 13], 1: [1, 1, 2, 3, 4, 5, 7, 7, 7, 13], 2
 
 
 def gen_frame(rng, tier):
-    total = 260 if tier == "quick" else 5000
+    total = 220 if tier == "quick" else 5000
     for _ in range(total):
         nvals = 4
         r = rng.random()
@@ -250,15 +250,43 @@ def gen_frame(rng, tier):
             cons = [gen_consumer(rng, c, nvals, rng.randrange(6)) for c in interesting]
             yield {"part": "frame", "n": n, "nvals": nvals, "cons": cons, "c1": n, "op": gen_op(rng, 12, nvals, None)}
             continue
-        n = 101 if r < 0.3 else rng.choice([11, 12, 12, 12])
+        n = 101 if r < 0.25 else rng.choice([11, 12, 12, 12])
         interesting = [c for c in (0, 1, 2, 10, 11, 100) if c < n]
-        c1 = rng.choice(interesting if rng.random() < 0.3 else [c for c in interesting if c in (1, 10, 100, 11)])
-        cons = [gen_consumer(rng, c, nvals, rng.randrange(6)) for c in interesting]
-        con = [c for c in cons if c["id"] == c1][0]
-        if rng.random() < 0.9:
-            kind = rng.choice(OPS_BY_PHASE[con["phase"]])
+        if r > 0.6:
+            # directed stream: two consumers whose ids are textual prefixes of one another, in the same phase with the
+            # same kind of state (shared time-queue entries, same validators), and an operation that removes or
+            # replaces state of one of them
+            a, b = rng.choice([p for p in [(1, 10), (1, 11), (1, 10), (10, 100), (1, 100)] if p[1] < n])
+            ph = rng.choice([1, 1, 2, 3, 3, 4])
+            cons = []
+            for c in interesting:
+                con = gen_consumer(rng, c, nvals, ph if c in (a, b) else rng.randrange(6))
+                if c in (a, b):
+                    con["qinfra"] = True
+                    con["optin"] = con["optin"] or [0]
+                    con["keys"] = con["keys"] or [1]
+                    con["rekey"] = con["keys"]
+                    con["comm"] = con["comm"] or [2]
+                cons.append(con)
+            c1 = rng.choice([a, b, b])
+            con = [c for c in cons if c["id"] == c1][0]
+            kind = rng.choice({1: [1, 1, 1, 7, 3], 2: [1, 1, 6, 9, 3, 4], 3: [1, 6, 9, 10, 11, 3, 4], 4: [8]}[ph])
+            op = gen_op(rng, kind, nvals, con)
+            if kind == 1:
+                if ph == 1:
+                    op[7] = rng.choice([1, 2])
+                else:
+                    op[8] = 1
+                op[3] = rng.choice([1, 3])
         else:
-            kind = rng.choice([1, 2, 3, 4, 5, 6, 7, 8, 9, 10, 11, 13])   # possibly in the wrong phase
+            c1 = rng.choice(interesting if rng.random() < 0.3 else [c for c in interesting if c in (1, 10, 100, 11)])
+            cons = [gen_consumer(rng, c, nvals, rng.randrange(6)) for c in interesting]
+            con = [c for c in cons if c["id"] == c1][0]
+            if rng.random() < 0.9:
+                kind = rng.choice(OPS_BY_PHASE[con["phase"]])
+            else:
+                kind = rng.choice([1, 2, 3, 4, 5, 6, 7, 8, 9, 10, 11, 13])   # possibly in the wrong phase
+            op = None
         if kind == 9:
             con["qinfra"] = True
         if kind in (10, 11) and con["phase"] >= 4:
@@ -271,7 +299,8 @@ def gen_frame(rng, tier):
                     c["phase"] = rng.choice([2, 3, 5])
             if con["phase"] == 1 and rng.random() < 0.25:
                 con["optin"] = []       # failing launch: nobody opted in
-        yield {"part": "frame", "n": n, "nvals": nvals, "cons": cons, "c1": c1, "op": gen_op(rng, kind, nvals, con)}
+        yield {"part": "frame", "n": n, "nvals": nvals, "cons": cons, "c1": c1,
+               "op": op if op is not None else gen_op(rng, kind, nvals, con)}
 
 
 def nontrivial_frame(case, inp, obs):
